@@ -8,10 +8,10 @@
 
    Scope: categorical (incl. enum) / multiple-response pairings, 2-D and 3-D.
    The model is faithful to the CODE; for 3-D cubes the code cuts counts_with_missings at the
-   RANK of the table element among the valid ones instead of its raw offset, so the theorems
-   carry the hypothesis [rank_is_offset] (no missing table element before the k-th valid one)
-   and [C16_rank_vs_offset_refuted] exhibits a survey on which the statement fails without it
-   (finding C16-3d-baseline-wrong-table).  NaN on inserted subtotals is checked on the
+   payload offset of the k-th valid table element (since the repair of finding
+   C16-3d-baseline-wrong-table; it used the rank k itself), so the theorems hold wherever
+   missing table elements sit, and [C16_former_witness] records the survey on which the
+   unrepaired code reported inf instead of 100.  NaN on inserted subtotals is checked on the
    implementation by the harness (NanSubtotals is not modelled here). *)
 From Coq Require Import QArith ZArith List Bool Lia Arith.
 From CC Require Import Base.XQ Base.ListX Spec.Survey Model.CubeCounts
@@ -25,7 +25,6 @@ Local Open Scope nat_scope.
    respondents eligible for it -- no condition on the column answer at all. *)
 Theorem C16_baseline_is_unconditional_row_share S tv vr vc kr kc mr mc k i j :
   t_ok tv -> cat_or_mr kr -> cat_or_mr kc -> k < t_n tv ->
-  rank_is_offset tv k ->
   (kc = KCat -> col_total S vc (length mc)) ->
   (kr = KMr -> kc = KMr -> forall i, i < nval mr -> nth i (valid_idxs mr) 0 = i) ->
   i < nval mr ->
@@ -33,15 +32,14 @@ Theorem C16_baseline_is_unconditional_row_share S tv vr vc kr kc mr mc k i j :
   =x= xdiv (Fin (wsum S (fun r => pop_of tv k r && in_el kr mr (ans r vr) i)))
            (Fin (wsum S (fun r => pop_of tv k r && ok_el kr mr (ans r vr) i))).
 Proof.
-  exact (fun Ht Hr Hc Hk Hrank Hcol Hit =>
-           baseline_of_spec S tv vr vc kr kc mr mc k Ht Hr Hc Hk Hrank Hcol Hit i j).
+  exact (fun Ht Hr Hc Hk Hcol Hit =>
+           baseline_of_spec S tv vr vc kr kc mr mc k Ht Hr Hc Hk Hcol Hit i j).
 Qed.
 Print Assumptions C16_baseline_is_unconditional_row_share.
 
 (* column index = 100 * column proportion / unconditional row share *)
 Theorem C16_column_index S tv vr vc kr kc mr mc k i j :
   t_ok tv -> cat_or_mr kr -> cat_or_mr kc -> k < t_n tv ->
-  rank_is_offset tv k ->
   (kc = KCat -> col_total S vc (length mc)) ->
   (kr = KMr -> kc = KMr -> forall i, i < nval mr -> nth i (valid_idxs mr) 0 = i) ->
   i < nval mr -> j < nval mc ->
@@ -57,15 +55,10 @@ Theorem C16_column_index S tv vr vc kr kc mr mc k i j :
           (xdiv (Fin (wsum S (fun r => pop_of tv k r && in_el kr mr (ans r vr) i)))
                 (Fin (wsum S (fun r => pop_of tv k r && ok_el kr mr (ans r vr) i))))).
 Proof.
-  exact (fun Ht Hr Hc Hk Hrank Hcol Hit =>
-           column_index_spec S tv vr vc kr kc mr mc k Ht Hr Hc Hk Hrank Hcol Hit i j).
+  exact (fun Ht Hr Hc Hk Hcol Hit =>
+           column_index_spec S tv vr vc kr kc mr mc k Ht Hr Hc Hk Hcol Hit i j).
 Qed.
 Print Assumptions C16_column_index.
-
-(* 2-D cubes need no rank hypothesis *)
-Theorem C16_rank_hypothesis_is_void_in_2d k : rank_is_offset None k.
-Proof. exact I. Qed.
-Print Assumptions C16_rank_hypothesis_is_void_in_2d.
 
 (* undefined shares give NaN *)
 Theorem C16_nan_when_column_share_undefined bl : column_index_cell (Fin 0) (Fin 0) bl = NaN.
@@ -81,27 +74,24 @@ Theorem C16_nan_when_both_shares_zero b : ~ (b == 0)%Q ->
 Proof. exact (column_index_zero_over_zero b). Qed.
 Print Assumptions C16_nan_when_both_shares_zero.
 
-(* The witness: table variable with categories [missing, valid]; in the valid table the row
-   shares are 1/4 and 3/4 and equal the column proportions, so every index should be 100.
-   The code takes the baseline from the MISSING category's table (everybody in row 0). *)
-Theorem C16_rank_vs_offset_refuted :
-  exists (S : survey) (tv : tvar) (mr mc : list bool),
-    t_ok tv /\ 0 < t_n tv /\ wf_survey S /\ col_total S 2 (length mc) /\
-    ~ rank_is_offset tv 0 /\
-    (let V := slice_of tv 1 KCat mr 2 KCat mc S 0 in
-     column_index_cell (counts_of V CCat CCat 1 0)
-                       (column_bases_of V (nval mr) (length mrv) CCat CCat 1 0)
-                       (baseline_of (raw_slice_of tv 1 KCat mr 2 KCat mc S 0) (valid_idxs mr) (length mc) 3
-                                    false false 1 0)
-     = Inf false) /\
-    xmul (Fin 100%Q)
-      (xdiv (xdiv (Fin (wsum S (fun r => pop_of tv 0 r && in_el KCat mr (ans r 1) 1 && in_el KCat mc (ans r 2) 0)))
-                  (Fin (wsum S (fun r => pop_of tv 0 r && ok_el KCat mr (ans r 1) 1 && in_el KCat mc (ans r 2) 0))))
-            (xdiv (Fin (wsum S (fun r => pop_of tv 0 r && in_el KCat mr (ans r 1) 1)))
-                  (Fin (wsum S (fun r => pop_of tv 0 r && ok_el KCat mr (ans r 1) 1)))))
-    =x= Fin 100%Q.
-Proof. exact c16_refuted_witness. Qed.
-Print Assumptions C16_rank_vs_offset_refuted.
+(* The former witness of the repaired defect: table variable with categories [missing, valid]; in
+   the valid table the row shares are 1/4 and 3/4 and equal the column proportions, so every index
+   is 100 (the unrepaired code took the baseline from the MISSING category's table: inf). *)
+Theorem C16_former_witness :
+  let S := c16_witness in
+  let tv : tvar := Some (0, KCat, [true; false]) in
+  let mr := [false; false] in
+  let mc := [false; false] in
+  t_ok tv /\ 0 < t_n tv /\ wf_survey S /\ col_total S 2 (length mc) /\
+  toffset tv 0 <> 0 /\
+  (let V := slice_of tv 1 KCat mr 2 KCat mc S 0 in
+   column_index_cell (counts_of V CCat CCat 1 0)
+                     (column_bases_of V (nval mr) (length mrv) CCat CCat 1 0)
+                     (baseline_of (raw_slice_of tv 1 KCat mr 2 KCat mc S 0) (valid_idxs mr) (length mc) 3
+                                  false false 1 0)
+   =x= Fin 100%Q).
+Proof. exact c16_former_witness. Qed.
+Print Assumptions C16_former_witness.
 
 (* Non-vacuity of the positive theorems: CAT x MR, many missing column answers unevenly over
    rows; the flat payload goes through [slice_column_index] (what the check evaluates). *)
@@ -115,7 +105,7 @@ Example C16_example :
   let mc := [false; false] in
   let ds := cube_dims None KCat mr KMr mc in
   let payload := flatten (raw_shape ds) (raw_of (cube_vars None 0 KCat 1 KMr) S) in
-  t_ok None /\ cat_or_mr KCat /\ cat_or_mr KMr /\ rank_is_offset None 0 /\ wf_survey S /\
+  t_ok None /\ cat_or_mr KCat /\ cat_or_mr KMr /\ wf_survey S /\
   option_map (map (map xred)) (slice_column_index ds payload payload 0)
     = Some [[Fin (250 # 3); Fin 0]; [Fin (500 # 3); Fin 500]] /\
   xmul (Fin 100%Q)
